@@ -299,6 +299,23 @@ func run(c *mc.Ctx, r *mc.Result) {
 	viaUpdate = true
 	runSpecs(c, r, "space.updated", sp5, 2, requestsDepth([]string{""}, 3))
 	viaUpdate = false
+	// a leaf whose only child is an intermediary node with a key of several bytes ending in a slash (/a -> /ab/ -> x, y):
+	// a request ending on that node is neither the leaf nor one of the routes below
+	var sp6 []rsx.RouteSpec
+	for _, p := range []string{"/a", "/a/ab/x", "/a/ab/y", "/a/ab"} {
+		for _, m := range []string{"GET", "POST"} {
+			for _, sl := range []int{rsx.SlashNone, rsx.SlashIgnore} {
+				sp6 = append(sp6, rsx.RouteSpec{Method: m, Pattern: p, Slash: sl})
+			}
+		}
+	}
+	var rq6 []rsx.Req
+	for _, p := range []string{"/a", "/a/", "/a/ab", "/a/ab/", "/a/ab/x", "/a/ab/x/", "/a/a", "/a/ab/z", "/a/ab//"} {
+		for _, m := range []string{"GET", "POST", "DELETE", "OPTIONS"} {
+			rq6 = append(rq6, rsx.Req{Method: m, Path: p})
+		}
+	}
+	runSpecs(c, r, "space.intermediary", sp6, 3, rq6)
 }
 
 // viaUpdate selects BuildViaUpdate for the family being run (set by run only)
